@@ -285,8 +285,21 @@ def replay_harness(prop, h, fcs, logs_dir):
                     continue
                 seen_tests.add(tname)
                 fh.write("\n" + code + "\n")
-        ran, failed, out = kani.native_playback(crate, "kani_concrete_playback")
+        hang_is_property = bool(hspec.get("unwind_is_property")) and any("unwinding assertion" in fc["description"] for fc in fcs)
+        ran, failed, out = kani.native_playback(crate, "kani_concrete_playback", timeout_s=(240 if hang_is_property else 900))
         open(os.path.join(logs_dir, h + ".native.log"), "w").write(out)
+        if not ran and hang_is_property and out == "playback timeout":
+            # termination is the property of this harness: the generated test runs the same body natively and
+            # does not come back - the endless loop is reproduced against the real code
+            rp_dir = os.path.join(os.environ.get("VERIF_EVIDENCE_DIR") or os.path.join(VERIF, "evidence"), "replay")
+            os.makedirs(rp_dir, exist_ok=True)
+            path = os.path.join(rp_dir, "%s-%s.json" % (prop, h))
+            json.dump({"property": prop, "harness": h, "variant": hspec.get("variant", "default"), "failed_checks": fcs,
+                       "wanted": sorted(wanted), "native_dev_failed_tests": [], "native_dev_panics": [],
+                       "native_hang": "the generated test did not finish within 240 s natively (termination is what this harness decides)",
+                       "tests": [{"file": modfile, "name": t[2], "code": t[3]} for t in r.playback][:3],
+                       "how": "./check %s --replay %s" % (prop, path)}, open(path, "w"), indent=1)
+            return True, path, ""
         if not ran:
             return False, None, "native playback did not run"
         if not failed:
